@@ -6,7 +6,7 @@ use std::collections::BTreeMap;
 use refmodel::rj::{J, MAX_INT, MIN_INT};
 use simcore::Tape;
 
-pub const KEY_ALPHABET: [&str; 14] = ["a", "b", "k", "é", "日本", "😀", "\u{1}", "\u{7f}", "A", "_", "z\u{10ffff}", "\"q\"", "back\\slash", "nl\n"];
+pub const KEY_ALPHABET: [&str; 18] = ["a", "b", "k", "é", "日本", "😀", "\u{1}", "\u{7f}", "A", "_", "z\u{10ffff}", "\"q\"", "back\\slash", "nl\n", "\u{ffff}", "\u{e000}", "\u{10000}", "ab"];
 pub const STR_ALPHABET: [&str; 16] =
     ["", "x", "hello world", "é", "日本語", "😀🎉", "\u{0}\u{1}\u{1f}", "\u{7f}\u{80}", "tab\there", "q\"uote", "sl/ash", "back\\", "\u{2028}\u{2029}", "\u{fffd}\u{ffff}", "\u{10000}\u{10ffff}", "line\r\nfeed"];
 
